@@ -40,21 +40,21 @@ impl PathComponent {
 
 /// Check if a key can use dot notation in jq.
 ///
-/// Keys must start with a letter or underscore, and contain only
-/// alphanumeric characters and underscores.
+/// jq identifiers are ASCII: the key must start with an ASCII letter or
+/// underscore and contain only ASCII letters, digits and underscores, and it
+/// must not be a jq reserved word (a leading `.then` / `.and` / ... is not read
+/// as a field access). Every other key is printed in bracket notation.
 fn can_use_dot_notation(key: &str) -> bool {
-    if key.is_empty() {
-        return false;
-    }
-
+    const RESERVED: &[&str] = &[
+        "and", "as", "catch", "def", "elif", "else", "end", "foreach", "if", "import", "include",
+        "label", "or", "reduce", "then", "try", "__loc__",
+    ];
     let mut chars = key.chars();
-    let first = chars.next().unwrap();
-
-    if !first.is_alphabetic() && first != '_' {
-        return false;
+    match chars.next() {
+        Some(c) if c.is_ascii_alphabetic() || c == '_' => {}
+        _ => return false,
     }
-
-    chars.all(|c| c.is_alphanumeric() || c == '_')
+    chars.all(|c| c.is_ascii_alphanumeric() || c == '_') && !RESERVED.contains(&key)
 }
 
 /// Escape a string for use in jq bracket notation.
